@@ -270,13 +270,18 @@ class Iso:
                 if repr(sx.sharded_dims) != repr(sy.sharded_dims):
                     self.d(q + ".sharded_dims", f"{sx.sharded_dims!r} != {sy.sharded_dims!r}")
 
+    def opset_imports(self, path, a, b):
+        """Exact equality of the two mappings (overridable: vfpy/c03_scopes.py judges the C03 reading)."""
+        if dict(a) != dict(b):
+            self.d(path, f"opset_imports {dict(a)} != {dict(b)}")
+
     def graph(self, path, a, b, top=True, function_body=False):
         if not function_body:  # FunctionProto has no field for the name of the body graph
             self.scalar(path + ".name", a.name, b.name)
         self.scalar(path + ".doc_string", a.doc_string, b.doc_string)
         self.mdict(path + ".metadata_props", a.metadata_props, b.metadata_props)
-        if top and dict(a.opset_imports) != dict(b.opset_imports):
-            self.d(path, f"opset_imports {dict(a.opset_imports)} != {dict(b.opset_imports)}")
+        if top:
+            self.opset_imports(path, a.opset_imports, b.opset_imports)
         if len(a.inputs) != len(b.inputs):
             self.d(path, f"#inputs {len(a.inputs)} != {len(b.inputs)}")
         for i, (x, y) in enumerate(zip(a.inputs, b.inputs)):
